@@ -22,6 +22,9 @@ fn small_conv(r: &mut Rng, max: usize) -> Vec<Cmd> {
     o.max_cmds = max.max(1);
     o.prog_text.max_units = 2;
     o.prog_text.max_rows = 3;
+    // sometimes rows larger than a TLS record / rustls' 64 KiB send buffer
+    o.prog_text.big_ok = r.chance(1, 6);
+    o.big_ok = o.prog_text.big_ok;
     o.prog_bin = o.prog_text.clone();
     o.prog_bin.binary = true;
     if max == 0 {
